@@ -49,6 +49,10 @@ CHECKS = {
         technique="deterministic simulation: an injected tag validator and instrumented Validate methods observe every traversal path; every validator invocation is enumerated as a fault point",
         text="SCOPED (DESIGN.md 6, C04). In scope: (a) no validator is skipped on any traversal path - after every successful Unpack the registered 'simcheck' tag validator must have seen the final value of every reachable field whose kind a built-in validator can reject, and every reachable value with a Validate method must have been validated, whether the value came from the config, the pre-fill or InitDefaults, through pointers, slices (incl. elements kept by append/prepend/merge), arrays, maps and inline fields; (b) every validator invocation of the case, failed once, makes Unpack fail with an error naming the field. Out of scope: the arithmetic of the five built-in validators on one value (pure).",
         note="Struct-kind fields present in the config do not get tag validators run and no built-in validator can reject a struct value: not demanded."),
+    "C07": dict(engine="hostile arguments (E1/E2/E3/E6 surfaces) + E5 lexer schedules", design="6 (C07), 4.4", cat="exploration",
+        technique="deterministic simulation: run-wide monitors (panic, step budget = bounded liveness, worker-crash, allocation bound) over hostile arguments placed inside valid histories, plus tape-chosen interleavings of the splice lexer goroutine and its parser at every channel operation under testing/synctest with exact leak / deadlock detection at bubble exit",
+        text="SCOPED (DESIGN.md 6, C07). Phase 1 (go1.23.5): hostile (name, idx) pairs - negative, huge, beyond MaxIdx, every integer spelling, separator-only names, wildcards - to every getter / setter / Has / Remove / Child / CountField in the middle of histories, under drawn PathSep / VarExp / MaxIdx / EnableNumKeys / EscapePath; hostile key strings in NewFrom / Merge inputs; unsupported and odd Unpack targets (non-pointers, nil pointers, *interface{}, zero Config, non-string-keyed maps, channels / functions / complex inside structs) and Merge sources; malformed splice strings under VarExp read through every entry point; malformed flag values under every parse.Config and flag arguments; small byte soups to the YAML / JSON / HJSON loaders. Oracles: no panic, no fatal runtime error (the worker's death is attributed to the run and replayed), every call returns within 3*10^5 instrumented events (and 8 s), no list longer than MaxIdx+1. Phase 2 (go1.26.8, synctest): NewFrom + String on strings from a grammar of splice expressions incl. every malformed shape, with rules R5/R6 active so that lexer goroutine and parser park in front of every send / receive / close / select and the tape decides who proceeds: same outcome under every schedule, and at bubble exit no goroutine may remain blocked (leaked lexer) and none may be deadlocked.",
+        note="Out of scope: coverage-guided exploration of the three third-party decoders and of parse.Value's input language (fuzzing of pure functions). Known finding O20 (Merge that does not terminate on references to the enclosing object) is reported by its probe; cyclic Go structures as Merge sources are documented as unsupported by the library and not generated."),
     "C09": dict(engine="E4-order", design="6 (C09), 5 (E4)", cat="exploration",
         technique="deterministic simulation: the simulator owns every map enumeration in the library (AST-inserted seam); the same call is run from identical states under sorted, reversed and tape-drawn orders and the outcomes compared (metamorphic, no model)",
         text="Each case generates the arguments of one call - NewFrom or Merge on trees whose dictionaries are spelled nested, dotted, partly each, with lists as dotted index keys and (when it is not a known finding) one setting defined twice; or Unpack / FlattenedKeys / CompareConfigs / NewFrom on configs whose settings reference each other through generated expressions, Env configs and resolvers, with at most one failing setting when error kinds are compared - and executes it K=6 (thorough 24) times from identical initial states (the setup is rebuilt under the canonical order) under different enumeration schedules decided at all rewritten range-over-map and MapKeys sites. All outcomes must agree: success vs failure, kind of error (root reason), canonical resulting data, shape of the resulting internal graph.",
@@ -82,7 +86,9 @@ def check(pid, c):
 
 engines = {}
 for pid, c in CHECKS.items():
-    engines.setdefault(c["engine"], []).append(pid)
+    if c["engine"] in ("E1-world","E2-varexp","E3-unpack","E4-order","E5-conc","E6-flags"):
+        engines.setdefault(c["engine"], []).append(pid)
+engines.setdefault("E5-conc", []).append("C07")
 
 ENGINE_INFO = {
     "E1-world": ("harness/world", "seeded histories over a pool of aliased configs vs reference tree (harness/model); per-step invariants"),
@@ -113,7 +119,6 @@ m = {
 }
 claimed = set(CHECKS)
 PENDING = {
-    "C07": "check under construction (monitors of all engines + E5 lexer schedules); not claimed until it is registered here",
 }
 for p, r in sorted(PENDING.items()):
     if p not in claimed:
